@@ -305,7 +305,7 @@ def part_inline_mem2var(ctx):
     model_ok = (COQ / "C14I" / "ISyn.vo").exists()
     if model_ok and sites:
         try:
-            res = evaluate([inline_expr(s_) for s_ in sites], "c14i_inline", shard=max(4, len(sites) // 6 + 1), timeout=900)
+            res = evaluate([inline_expr(s_) for s_ in sites], "c14i_inline", shard=min(40, max(4, len(sites) // 6 + 1)), timeout=1200)
         except RuntimeError as e:
             res = None
             ctx.violation("correspondence-broken", "the inlining validator could not be evaluated on the exported call sites", {"error": str(e)[-1500:]})
